@@ -76,6 +76,53 @@ def check(run):
         run.guard("C05.4.disjunction", cfg, lambda: C05.rule_disjunction(run, F, cfg))
         b = run.borrow("C06", why="a regex rebuilt after a discard must be the regex compiled the first time")
         run.guard("C02.via.C06.2.pure-cache", cfg, lambda: _C06.rule_pure_cache(b, F, cfg))
+        from . import C01 as _C01
+        b1 = run.borrow("C01", only=r"token-limit", why="a pattern can only be compared with the URLs whose tokens reach its bucket: the URL's first 127 tokens must all be looked up")
+        run.guard("C02.via.C01.4.token-boundary", cfg, lambda: _C01.rule_boundary(b1, F, cfg))
+    run.guard("C02.6.regex-literal-classification", "A/D", lambda: rule_regex_literal_agreement(run))
+
+
+def _classification_sites(F):
+    """(conditions, loc) of every place where NetworkFilter::parse classifies a rule as a complete regex (sets
+    IS_COMPLETE_REGEX) or rejects it for lack of regex support (FullRegexUnsupported)"""
+    from analysis.guards import dominating_conditions
+    p = F.fn("filters::network::NetworkFilter::parse")
+    sets, errs = [], []
+    for b, t in p.calls(r"::set$"):
+        if "IS_COMPLETE_REGEX" in p.vexpr_call(t):
+            sets.append((dict(dominating_conditions(p, b, render=p.vexpr_operand)), p.loc(b)))
+    for b, i, st in p.statements():
+        if st["k"] == "assign" and st["rv"]["k"] == "agg" and st["rv"].get("variant") == "FullRegexUnsupported":
+            errs.append((dict(dominating_conditions(p, b, render=p.vexpr_operand)), p.loc(b)))
+    return p, sets, errs
+
+
+def rule_regex_literal_agreement(run):
+    """Sibling agreement across build configurations: the lines a build without `full-regex-handling` rejects as
+    unsupported regular expressions are exactly the lines the default build treats as complete regexes. A build
+    that rejects more drops ordinary patterns (`||example.com/ads/`); one that rejects less matches a `/re/` rule as
+    if it were a literal."""
+    from analysis.names import eq_mod_names
+    rid = "C02.6.regex-literal-classification"
+    if "A" not in run.cfgs("A", "D") or "D" not in run.cfgs("A", "D"):
+        return
+    FA, FD = run.facts("A"), run.facts("D")
+    pa, sets_a, errs_a = _classification_sites(FA)
+    pd, sets_d, errs_d = _classification_sites(FD)
+    run.touched(pa, pd)
+    run.ob(rid, "default-build:one-classification-site", len(sets_a) == 1 and not errs_a,
+           f"configuration A sets IS_COMPLETE_REGEX at exactly one place and never returns FullRegexUnsupported "
+           f"({len(sets_a)} / {len(errs_a)})", site=pa.loc(0), config="A")
+    run.ob(rid, "no-regex-build:one-rejection-site", len(errs_d) == 1 and not sets_d,
+           f"configuration D returns FullRegexUnsupported at exactly one place and never sets IS_COMPLETE_REGEX "
+           f"({len(errs_d)} / {len(sets_d)})", site=pd.loc(0), config="D")
+    if len(sets_a) == 1 and len(errs_d) == 1:
+        ca, cd = sets_a[0][0], errs_d[0][0]
+        same = ca == cd or eq_mod_names(sorted(cd.items()), sorted(ca.items()))
+        run.ob(rid, "same-lines-in-both-builds", same,
+               "the rejection in configuration D is reached under the same conditions as the complete-regex "
+               f"classification in configuration A.  A: {sorted(ca.items())}  D: {sorted(cd.items())}",
+               site=errs_d[0][1], config="D")
 
 
 def rule_dispatch(run, F, cfg):
